@@ -441,10 +441,10 @@ func c15RunNoRead(lp *vk.ListenerPool, in c15Input, work string) (res c15Result)
 							r := c15CountStream{ds, &peerRead}
 							hdr := make([]byte, transfer.VerifDataChunkHeaderLen)
 							for f := 0; f < k; f++ {
-								if _, err := readFull(r, hdr); err != nil {
+								if _, err := c15ReadFull(r, hdr); err != nil {
 									return
 								}
-								if _, err := readFull(r, make([]byte, binary.BigEndian.Uint32(hdr[12:16])&0xFFFF)); err != nil {
+								if _, err := c15ReadFull(r, make([]byte, binary.BigEndian.Uint32(hdr[12:16])&0xFFFF)); err != nil {
 									return
 								}
 							}
@@ -527,7 +527,7 @@ func c15RunNoRead(lp *vk.ListenerPool, in c15Input, work string) (res c15Result)
 	return res
 }
 
-func readFull(r interface{ Read([]byte) (int, error) }, b []byte) (int, error) {
+func c15ReadFull(r interface{ Read([]byte) (int, error) }, b []byte) (int, error) {
 	n := 0
 	for n < len(b) {
 		k, err := r.Read(b[n:])
